@@ -24,4 +24,40 @@ PROPS = {
     },
 }
 
+PROPS['C25'] = {
+    'title': 'Iterators visit every instruction exactly once in order',
+    'props_files': ['Orca/Props/C25.lean'],
+    'families': [{'name': 'iter', 'quick_n': 1500, 'thorough_n': 150000}],
+    'rule': 'generated modules (0-2 function imports, 0-4 local functions of 1-16 instructions) x skip lists (none / leading / '
+            'trailing / all / random / foreign ids, any order) x reset after 0-7 steps; distinct by (metadata, skip list, reset point); '
+            'non-trivial unless the module has no local function and the skip list is empty',
+    'trusted': COMMON_TRUST + [
+        'modelled, not verified: Module::get_func_metadata (the harness checks that curr_op is the operator at the reported location)',
+    ],
+    'assumptions': ['every function body has at least one instruction (its final end) - true of every parsed or built function'],
+    'design_ref': 'DESIGN.md section 6, C25',
+    'level_text': 'Lean 4 theorems over the transcribed Func/Module sub-iterator state machines: the client loop reports exactly the '
+                  'specified visit list (unbounded metadata and skip lists), no duplicates, reset restarts, totality; tied to the code '
+                  'by a differential run of ModuleIterator against the model and an independent expected-visit oracle.',
+    'technique': 'Lean 4 proof (invariant over iterator steps) + differential correspondence check',
+}
+PROPS['C26'] = {
+    'title': 'Component iteration and injection match module-level behaviour',
+    'props_files': ['Orca/Props/C26.lean'],
+    'families': [{'name': 'compiter', 'quick_n': 800, 'thorough_n': 60000}],
+    'rule': 'generated components of 1-4 core modules (each 0-1 imports, 0-3 local functions) x per-module skip lists (map entries '
+            'present or absent) x reset point x 0-4 injections (before/after/alternate) replayed through the component iterator and '
+            'through per-module iterators; distinct by case line; non-trivial when at least one module has a visited instruction',
+    'trusted': COMMON_TRUST + [
+        'the injection half of C26 is decided by the differential oracle (component iterator vs module iterators, encoded modules compared byte for byte), not by a theorem',
+        'modelled, not verified: HashMap lookups of per-module metadata/skip lists (as list indexing with empty default)',
+    ],
+    'assumptions': ['every function body has at least one instruction'],
+    'design_ref': 'DESIGN.md section 6, C26',
+    'level_text': 'Lean 4 theorems over the transcribed ComponentSubIterator: the client loop reports, module after module, exactly what '
+                  'C25 specifies for each module (proved equal to the concatenation of module-iterator traces); injection equivalence by '
+                  'differential run.',
+    'technique': 'Lean 4 proof (refinement to the per-module specification) + differential correspondence check',
+}
+
 ALL_IDS = ['C%02d' % i for i in range(1, 31)]
